@@ -2040,6 +2040,8 @@ func r8XMLWritesEveryChild(w *World, r *Report, rule string) {
 					switch {
 					case pcIsIter(a):
 					case a.op == token.LSS && a.x != nil && isRangeIndex(a.x):
+					case a.op == token.LSS && a.y != nil && func() bool { _, isLen := isLenCall(a.y); return isLen }():
+						// a counted loop over the values
 					default:
 						if ex, isEx := a.v.(*ssa.Extract); isEx && ex.Index == 1 {
 							if _, isTA := ex.Tuple.(*ssa.TypeAssert); isTA {
